@@ -12,6 +12,8 @@ from concurrent.futures import ThreadPoolExecutor
 
 VERIF = os.path.dirname(os.path.dirname(os.path.abspath(__file__)))
 REPO = os.environ.get("XV_REPO", "/repo")
+# where evidence/ and replays/ are written: /verif, unless a seed test (bin/seedtest) redirects them
+OUT = os.environ.get("XV_OUT") or os.path.dirname(os.path.dirname(os.path.abspath(__file__)))
 BUILD = os.environ.get("XV_BUILD", os.path.join(VERIF, "build"))
 OBJ = os.path.join(BUILD, "obj")
 OUT = os.path.join(BUILD, "out")
@@ -394,8 +396,8 @@ def write_evidence(prop, tier, seed, wall, coverage, violations, assumptions):
         "wall_s": round(float(wall), 3),
         "violations": int(violations),
     }
-    os.makedirs(os.path.join(VERIF, "evidence"), exist_ok=True)
-    path = os.path.join(VERIF, "evidence", prop + ".json")
+    os.makedirs(os.path.join(OUT, "evidence"), exist_ok=True)
+    path = os.path.join(OUT, "evidence", prop + ".json")
     tmp = path + ".tmp"
     with open(tmp, "w") as f:
         json.dump(ev, f, indent=1)
@@ -415,7 +417,7 @@ def tier_and_seed(argv_tier=None):
 
 
 def write_replay(prop, k, payload):
-    d = os.path.join(VERIF, "replays")
+    d = os.path.join(OUT, "replays")
     os.makedirs(d, exist_ok=True)
     path = os.path.join(d, "%s-%d.json" % (prop, k))
     with open(path, "w") as f:
@@ -424,7 +426,7 @@ def write_replay(prop, k, payload):
 
 
 def clear_replays(prop):
-    d = os.path.join(VERIF, "replays")
+    d = os.path.join(OUT, "replays")
     if os.path.isdir(d):
         for n in os.listdir(d):
             if n.startswith(prop + "-"):
